@@ -244,6 +244,7 @@ def run(prog: Program) -> Results:
     marker_positions(prog, res, "R-C01-8")
     no_greedy_strip(prog, res, "R-C01-10")
     scoped_nodes_render_their_let(prog, res, "R-C01-12")
+    container_children_all_handled(prog, res, "R-C01-13")
     no_text_rewriting(prog, res, "R-C01-9", renderer_functions(prog, cg) + [prog.func("NixSourceCode.rebuild")])
     from sa.rules import kinds
     kinds.check(prog, res, "R-C01-11")
@@ -533,3 +534,50 @@ def scoped_nodes_render_their_let(prog: Program, res: Results, rid: str) -> None
                         f"{c}.{entry}: `{norm(un[0].ast)[:60]}` can be returned while `self.has_scope()` is true (and a caller outside the "
                         f"class uses the result verbatim): the lifted `let … in` is not rendered — `{{ a = let x = 1; in [ x ]; }}` "
                         f"rebuilds as `{{ a = [ x ]; }}`")
+
+
+# ------------------------------------------------------------------------------------------------ R-C01-13
+# named-children-only CST containers: every child is content (no punctuation inside), so a child kind that no arm handles and
+# nothing rejects is silently dropped.  kind of container -> child kinds tree-sitter-nix can put there (comments are extras)
+NAMED_ONLY_CONTAINERS = {"inherited_attrs": {"identifier", "string_expression", "interpolation"}}
+
+
+def container_children_all_handled(prog: Program, res: Results, rid: str) -> None:
+    from sa.dtable import outcome
+    r = res.rule(rid, "no child of a names-only CST container is skipped silently: a from_cst loop over the children of such a "
+                 "container (inherited_attrs) does something — convert or raise — for every child kind the grammar allows there",
+                 floor=1)
+    for f in prog.all_functions():
+        if not (f.name == "from_cst" or (f.parent is not None and f.parent.name == "from_cst")):
+            continue
+        for loop in [l for l in walk_no_nested(f.node) if isinstance(l, ast.For) and isinstance(l.iter, ast.Attribute) and l.iter.attr == "children"
+                     and isinstance(l.iter.value, ast.Name) and isinstance(l.target, ast.Name)]:
+            l_kind = None
+            from sa.util import parent_map as _pmf
+            pmf = _pmf(f.node)
+            for d in ast.walk(f.node):
+                if isinstance(d, (ast.Assign, ast.AnnAssign)) and norm(d.targets[0] if isinstance(d, ast.Assign) else d.target) == loop.iter.value.id \
+                        and getattr(d, "value", None) is not None:
+                    srcs = [d.value]
+                    cur = d
+                    while cur in pmf:
+                        cur = pmf[cur]
+                        if isinstance(cur, ast.If):
+                            srcs.append(cur.test)
+                    for s_ in srcs:
+                        for x in ast.walk(s_):
+                            if isinstance(x, ast.Constant) and x.value in NAMED_ONLY_CONTAINERS:
+                                l_kind = x.value
+            if l_kind is None:
+                continue
+            lv = loop.target.id
+            for kind in sorted(NAMED_ONLY_CONTAINERS[l_kind]):
+                r.instances += 1
+                o = outcome(loop.body, {f"{lv}.type": kind})
+                acts = {a_ for a_ in o.may if a_ not in ("continue", "break")}
+                ok = bool(acts)
+                r.ob(ok, {"site": f.key, "container": l_kind, "child_kind": kind, "handled": ok})
+                if not ok:
+                    res.add(rid, (f.key, "child kind silently skipped", l_kind, kind), f.loc(loop),
+                            f"{f.key}: a `{kind}` child of `{l_kind}` matches no arm of the loop and nothing rejects it: "
+                            f"`{{ inherit a ${{\"b\"}} \"c\"; }}` is rebuilt as `{{ inherit a \"c\"; }}` — the name is dropped without an error")
